@@ -359,7 +359,15 @@ func (ctx *Context) LoadNameWithDetail(name string, isRaw bool, useHook bool, de
 	// 先local再global
 	curCtx := ctx
 	for {
+		// 变量在外层作用域找到时，computed 会在外层 ctx 上执行。算力计数以当前(最内层) ctx 为准，
+		// 执行前后同步，否则内层返回时会用自己的旧计数覆盖外层刚累加的消耗
+		if curCtx != ctx {
+			curCtx.NumOpCount = ctx.NumOpCount
+		}
 		ret := curCtx.LoadNameLocalWithDetail(name, isRaw, detail)
+		if curCtx != ctx {
+			ctx.NumOpCount = curCtx.NumOpCount
+		}
 
 		if curCtx.Error != nil {
 			ctx.Error = curCtx.Error
